@@ -104,7 +104,7 @@ type DOp struct {
 	Seqs []lz.Seq `json:"seqs,omitempty"`
 	Lits Bytes    `json:"lits,omitempty"`
 	Len  int      `json:"len,omitempty"`
-	W    *WEvent  `json:"w,omitempty"` // writeto on a DecoderBuffer: behaviour of the writer
+	W    *WEvent  `json:"w,omitempty"`   // writeto on a DecoderBuffer: behaviour of the writer
 	Cfg  *DCfg    `json:"cfg,omitempty"` // reinit: Init is called again with this configuration (nil: the one of the case)
 }
 
